@@ -16,12 +16,15 @@ import SoundeventModel.DetectionTags
 namespace SE.Metrics
 open SE SE.Encoding SE.Detection
 
-/-- a clip prediction / annotation of the two clip-level tasks with its real tags -/
+/-- a clip prediction / annotation of the two clip-level tasks with its real tags; `nEvents`: how many sound
+    events the object carries (the clip-level tasks do not look at them, `ClipEvaluation`'s validator does) -/
 structure CCPredT where
   tags : List PredictedTag
+  nEvents : Nat := 0
   deriving Repr, Inhabited
 structure CCAnnT where
   tags : List Tag
+  nEvents : Nat := 0
   deriving Repr, Inhabited
 
 def CCPredT.enc (cast : Rat → Rat) (vocab : List Tag) (p : CCPredT) : CCPred := ⟨encPredTags cast vocab p.tags⟩
@@ -29,15 +32,35 @@ def CCAnnT.enc (vocab : List Tag) (a : CCAnnT) : CCAnn := ⟨encTags vocab a.tag
 
 def encClips {α β} (f : α → β) (xs : List (Nat × α)) : List (Nat × β) := xs.map (fun x => (x.1, f x.2))
 
+/-- does an evaluated clip carry sound events?  The clip-level tasks build a `ClipEvaluation` without matches and
+    its validator ("not all sound events were matched") then rejects it: the task raises `ValueError`
+    (known finding C09-K3) -/
+def carriesEvents (preds : List (Nat × CCPredT)) (anns : List (Nat × CCAnnT)) : Bool :=
+  (pairClips preds anns).any (fun x => decide (0 < x.2.1.nEvents + x.2.2.nEvents))
+
 /-- `clip_classification(clip_predictions, clip_annotations, tags)` -/
 def clipClassificationT (cast : Rat → Rat) (vocab : List Tag) (preds : List (Nat × CCPredT))
     (anns : List (Nat × CCAnnT)) : Except Err EvalOut :=
+  if carriesEvents preds anns then .error .invalid else
   clipClassification vocab.length (encClips (CCPredT.enc cast vocab) preds) (encClips (CCAnnT.enc vocab) anns)
 
 /-- `clip_multilabel_classification(...)`; the clip scores stay a parameter (see `clipMultilabel`) -/
 def clipMultilabelT (cast : Rat → Rat) (vocab : List Tag) (preds : List (Nat × CCPredT))
     (anns : List (Nat × CCAnnT)) (clipScores : List Rat) : Except Err EvalOut :=
+  if carriesEvents preds anns then .error .invalid else
   clipMultilabel vocab.length (encClips (CCPredT.enc cast vocab) preds) (encClips (CCAnnT.enc vocab) anns) clipScores
+
+/-- the clip scores of the multilabel task in closed form: `exp(-log_loss)` of one indicator row is the product of
+    the clipped probabilities of the true classes (`mlScore`), over the arrays of `evaluation/encoding.py` -/
+def mlClipScores (cast : Rat → Rat) (vocab : List Tag) (preds : List (Nat × CCPredT)) (anns : List (Nat × CCAnnT)) :
+    List Rat :=
+  (pairClips preds anns).map (fun x =>
+    mlScore ⟨(multilabelEncoding vocab x.2.1.tags).map (fun n => n != 0), predictionEncoding cast vocab x.2.2.tags⟩)
+
+/-- `clip_multilabel_classification(...)` with the closed-form clip scores -/
+def clipMultilabelClosedT (cast : Rat → Rat) (vocab : List Tag) (preds : List (Nat × CCPredT))
+    (anns : List (Nat × CCAnnT)) : Except Err EvalOut :=
+  clipMultilabelT cast vocab preds anns (mlClipScores cast vocab preds anns)
 
 /-- `sound_event_classification(...)` -/
 def soundEventClassificationT (cast : Rat → Rat) (vocab : List Tag) (preds : List (Nat × List TPred))
